@@ -275,8 +275,9 @@ package pbft
 //@   aborts when [two-thirds-committed-an-invalid-block] cs.RoundState.Step == 8 && commitMaj(cs) && haveCommitBlock(cs) && !blockValidFor(cs.state, cs.RoundState.ProposalBlock)
 //@   atcall finalizeCommit assert [finalize-only-with-majority-for-our-block] commitMaj(cs) && haveCommitBlock(cs)
 
+//@ ghost gStoreHeight Int
 //@ func (*ConsensusState).finalizeCommit
-//@   props C04 C02 C01
+//@   props C04 C02 C01 C06
 //@   let guard = cs.RoundState.Height == height && cs.RoundState.Step == 8
 //@   requires wfCS(cs)
 //@   aborts when [commit-round-without-majority] guard && !commitMaj(cs)
@@ -293,6 +294,12 @@ package pbft
 //@   atcall SaveBlock assert [stored-block-validated] gValidated == arg_block
 //@   atcall SaveBlock assert [stored-seen-commit-is-that-majority] arg_seenCommit == gSeen && arg_block == cs.RoundState.ProposalBlock && arg_blockParts == cs.RoundState.ProposalBlockParts
 //@   atcall ApplyBlock assert [applied-block-is-the-committed-one] gMajOk && gValidated == arg_block && bytesEq(blockHashOf(arg_block), gMajID.Hash)
+// order of the durable writes of a commit (C06): block store, then execute + application commit, then the state
+//@   atcall Height set gStoreHeight = result
+//@   atcall SaveBlock assert [block-stored-once-and-first] calls(SaveBlock) == 0 && calls(ApplyBlock) == 0 && calls(Save) == 0 && gStoreHeight < arg_block.Header.Height
+//@   atcall ApplyBlock assert [block-stored-before-it-is-applied] calls(ApplyBlock) == 0 && calls(Save) == 0 && (calls(SaveBlock) == 1 || gStoreHeight >= arg_block.Header.Height)
+//@   atcall Save assert [state-saved-after-the-block-was-applied] calls(ApplyBlock) == 1 && calls(Save) == 0
+//@   atcall updateToState assert [consensus-advances-only-after-the-state-was-saved] calls(Save) == 1 && calls(ApplyBlock) == 1 && calls(updateToState) == 0
 
 //@ func (*ConsensusState).enterCommit
 //@   requires wfCS(cs)
